@@ -116,6 +116,9 @@ Fixpoint chunk (sizes : list nat) (x : list N) : dev :=
   | n :: s => firstn n x :: chunk s (skipn n x)
   end.
 
+(* byte-by-byte delivery *)
+Definition ones (n : nat) : list nat := repeat 1%nat n.
+
 Definition shared (f : feed) : bool :=
   match f with FdFile | FdFifo _ => true | _ => false end.
 
